@@ -46,7 +46,11 @@ pub fn record(
         field(&mut line, "variant", VARIANT.with(|v| v.get()));
         line.push(',');
         field(&mut line, "file", &span.file());
-        line.push_str(&format!(",\"line\":{},\"col\":{},", span.line(), span.column()));
+        line.push_str(&format!(
+            ",\"line\":{},\"col\":{},",
+            span.line(),
+            span.column()
+        ));
         field(&mut line, "attr", &attr);
         line.push(',');
         field(&mut line, "input", &input);
